@@ -195,8 +195,16 @@ def oracle_state(rules, step):
 
 
 def collision(step):
-    """known-class candidate: two listings (of different components) translate to the same annotated triple."""
-    return any(len(es) > 1 for es in alive_base(step).values())
+    """Two listings of different components translate to the same annotated triple (an IRI of one component
+    plus a prefix of the local name equals the IRI of another): the tag seeded for it depends on the order in
+    which the components are visited."""
+    seen = {}
+    for comp, trs in [(w["iri"], w["triples"]) for w in step["windows"]] + [(g["iri"], g["triples"]) for g in step["statics"]]:
+        for t in trs:
+            f = (t[0], comp + t[1], t[2])
+            if seen.setdefault(f, comp) != comp:
+                return True
+    return False
 
 
 def window_consistent(prev, step):
@@ -290,7 +298,10 @@ def gen_rules(rng, wins, stats, outs):
             r = {"prem": prem, "concl": concl}
         rules.append(r)
     rng.shuffle(rules)
-    return rules[:4]
+    rules = rules[:4]
+    if rules and rng.random() < 0.15:   # a variable in predicate position of one premise
+        rng.choice(rng.choice(rules)["prem"])[1] = {"v": "pv"}
+    return rules
 
 
 def gen_history(rng, thorough=False):
@@ -329,7 +340,8 @@ def gen_history(rng, thorough=False):
         for w in step["windows"]:
             rng.shuffle(w["triples"])
         steps.append(step)
-    return {"rules": rules, "steps": steps}
+    # repeat: every incremental call is made twice on freshly built hash maps; the results must coincide
+    return {"rules": rules, "steps": steps, "repeat": 2}
 
 
 def gen_function_level(rng):
@@ -348,6 +360,93 @@ def gen_function_level(rng):
         e = rng.choice([step["now"] - 1, step["now"], step["now"] + 1, step["now"] + 3, step["now"] + 9, INF]) if step["now"] > 0 else rng.choice([0, 1, 5, INF])
         init.append([rng.choice(comps + ["urn:other/"]), f[0], f[1], f[2], max(0, e)])
     return {"rules": c["rules"], "steps": [step], "init_state": init}
+
+
+def gen_exhaustive(thorough=False):
+    """Every small history of a fixed scenario: a chain over two windows (widths 2 and 3) into an output, a fact
+    derived from a derived fact, and a derived fact that lands in a window component through a static fact.
+    Enumerated: arrival time of the first fact, an optional renewal, arrival time of the second fact, every
+    increasing triple of evaluation times, and whether expired entries linger in the content.  All boundaries
+    (expiry = now, renewal at the expiry, equal expiries on both premises) occur."""
+    import itertools
+    W, V2, G, O = "http://w1/", "http://w2/", "http://g/", "http://out/"
+    V = lambda x: {"v": x}
+    Cn = lambda c: {"c": c}
+    rules = [
+        {"prem": [[V("x"), Cn(W + "p"), V("y")], [V("y"), Cn(V2 + "p"), V("z")]], "concl": [[V("x"), Cn(O + "p"), V("z")]]},
+        {"prem": [[V("x"), Cn(O + "p"), V("y")]], "concl": [[V("y"), Cn(O + "q"), V("x")]]},
+        {"prem": [[V("x"), Cn(G + "p"), V("y")], [V("y"), Cn(O + "q"), V("z")]], "concl": [[V("x"), Cn(W + "p"), V("z")]]},
+    ]
+    aw, av = 2, 3
+    statics = [{"iri": G, "triples": [["d", "p", "c"]]}]
+    cases = []
+    for t1 in (0, 1, 2):
+        for r1 in ((None, 2, 3, 4) if thorough else (None, 2, 3)):
+            if r1 is not None and r1 <= t1:
+                continue
+            for t2 in ((0, 1, 2, 3) if thorough else (0, 1, 2)):
+                for times in itertools.combinations(range(1, 8 if thorough else 6), 3):
+                    for linger in (False, True):
+                        steps = []
+                        for now in times:
+                            arr = [a for a in (t1, r1) if a is not None and a <= now]
+                            wl, vl = [], []
+                            if arr and (max(arr) + aw > now or linger):
+                                wl.append(["a", "p", "b", max(arr)])
+                            if t2 <= now and (t2 + av > now or linger):
+                                vl.append(["b", "p", "c", t2])
+                            steps.append({"now": now, "windows": [{"iri": W, "alpha": aw, "triples": wl}, {"iri": V2, "alpha": av, "triples": vl}],
+                                          "statics": statics, "outputs": [O]})
+                        cases.append({"rules": rules, "steps": steps})
+    return cases
+
+
+def gen_perturbed(rng):
+    """Histories outside the property's quantifier (alive facts dropped early, arrival times going back, static
+    graphs that change, a triple listed twice, saturating widths, evaluation at u64::MAX).  No oracle: the
+    implementation must still agree with the model, which is what ties the model to the code where the
+    theorems' hypotheses do not hold."""
+    c = gen_history(rng)
+    steps = json.loads(json.dumps(c["steps"]))
+    kind = rng.choice(["drop", "back", "static", "dup", "saturate", "maxnow", "equal_times"])
+    k = rng.randrange(1, len(steps))
+    if kind == "drop":
+        for w in steps[k]["windows"]:
+            if w["triples"]:
+                w["triples"].pop(rng.randrange(len(w["triples"])))
+    elif kind == "back":
+        for w in steps[k]["windows"]:
+            for t in w["triples"]:
+                if rng.random() < 0.5:
+                    t[3] = max(0, t[3] - rng.randrange(1, 4))
+    elif kind == "static":
+        for s in steps[k:]:
+            s["statics"] = json.loads(json.dumps(s["statics"]))
+            g = s["statics"][0]
+            if g["triples"] and rng.random() < 0.5:
+                g["triples"] = g["triples"][1:]
+            else:
+                donors = [t for w in steps[k - 1]["windows"] for t in w["triples"]]
+                if donors:
+                    d = rng.choice(donors)
+                    g["triples"] = g["triples"] + [[d[0], d[1], d[2]]]
+    elif kind == "dup":
+        for w in steps[k]["windows"]:
+            if w["triples"]:
+                d = list(rng.choice(w["triples"]))
+                d[3] = max(0, d[3] + rng.choice([-1, 1, 2]))
+                w["triples"].insert(rng.randrange(len(w["triples"]) + 1), d)
+    elif kind == "saturate":
+        wi = rng.randrange(len(steps[0]["windows"]))
+        for s in steps:
+            s["windows"][wi]["alpha"] = INF - rng.choice([0, 1, 5])
+    elif kind == "maxnow":
+        steps[-1]["now"] = INF
+        if len(steps) > 2:
+            steps[-2]["now"] = INF - 1
+    else:
+        steps[k]["now"] = steps[k - 1]["now"]
+    return {"rules": c["rules"], "steps": steps, "perturbation": kind}
 
 
 # ---- evaluation -----------------------------------------------------------------------------------
@@ -369,12 +468,10 @@ def unopt(v):
 
 
 def evaluate(ctx, binpath, cases, stream, oracle=True):
-    t0 = __import__("time").time()
     impl = ctx.run_impl(binpath, cases)
-    ctx.log("impl %d cases in %.1fs" % (len(cases), __import__("time").time() - t0))
     model = ctx.run_model("CrossWindow", ["KV.CrossWindow.Model", "KV.CrossWindow.Spec", "KV.CrossWindow.Run"],
                           [case_expr(c) for c in cases], preamble="Open Scope N_scope.")
-    ctx.log("model done at +%.1fs" % (__import__("time").time() - t0))
+    ctx.log("%s: %d cases evaluated by the implementation and the model" % (stream, len(cases)))
     nmis = nviol = nsteps = nskip = 0
     dist = {"steps": 0, "rules": 0, "derived_entries": 0, "entries": 0, "d_old_steps": 0, "renewal_steps": 0, "empty_results": 0}
     for c, im, mo in zip(cases, impl, model):
@@ -484,22 +581,100 @@ ASSUME = ["timestamps + width below u64::MAX (no saturation) and evaluation time
           "rules are positive, safe, have at least one premise and constant conclusion predicates that belong to a component"]
 
 
+def harness(ctx):
+    """The driver built against /repo's working tree.  VERIF_C12_BIN (development only, see notes/C12.md)
+    substitutes a driver built against a private copy of the repository, so that a mutation self-test
+    neither disturbs nor is disturbed by other developers working in /repo."""
+    return os.environ.get("VERIF_C12_BIN") or ctx.harness("c12")
+
+
+def replay_witnesses(ctx, binpath, corpus):
+    """Known-finding witnesses and boundary witnesses: the implementation must behave as the model does; a known
+    finding that still contradicts the oracle is reported as KNOWN-FINDING, a boundary witness is only recorded."""
+    wit = [c for c in corpus if c.get("kind") in ("known", "boundary")]
+    if not wit:
+        return
+    impl = ctx.run_impl(binpath, [c["case"] for c in wit], shards=1)
+    model = ctx.run_model("CrossWindow", ["KV.CrossWindow.Model", "KV.CrossWindow.Spec", "KV.CrossWindow.Run"],
+                          [case_expr(c["case"]) for c in wit], preamble="Open Scope N_scope.")
+    listed = {k["id"] for k in ctx.known_findings()}
+    reproduced = {}
+    for c, im, mo in zip(wit, impl, model):
+        ctx.count(len(c["case"]["steps"]))
+        case = c["case"]
+        ix = {s: i for i, s in enumerate(case_names(case))}
+        if "outs" not in im or (isinstance(mo, tuple) and mo and mo[0] == "ERROR"):
+            ctx.broken("correspondence", "witnesses", "witness %s could not be evaluated" % c["id"], {"impl": im, "model": str(mo)[:300]})
+            continue
+        differs, unstable, model_differs = [], False, False
+        for k, step in enumerate(case["steps"]):
+            out = im["outs"][k]
+            o_inc = canon_inc(ix, oracle_state(case["rules"], step))
+            i_inc = canon_inc(ix, out["inc"])
+            if i_inc != o_inc:
+                differs.append({"step": k, "now": step["now"], "implementation": out["inc"], "spec": oracle_state(case["rules"], step)})
+            unstable = unstable or not out.get("stable", True)
+            m_inc = unopt(mo[k][0]) if k < len(mo) else None
+            if m_inc is None or sorted(tuple(x) for x in m_inc) != i_inc:
+                model_differs = True
+        ctx.stream("witnesses", **{c["id"] + ("/unstable" if c.get("unstable") else ""): "reproduced" if (differs or unstable) else "not reproduced"})
+        if c["kind"] == "known":
+            if differs or unstable:
+                if c["id"] in listed:
+                    reproduced.setdefault(c["id"], []).append(c["what"])
+                else:
+                    ctx.violation(case, {"what": c["what"], "first": (differs or [None])[0], "unstable": unstable})
+            if model_differs and not c.get("unstable"):
+                ctx.broken("correspondence", "witnesses", "model and implementation differ on the known-finding witness %s" % c["id"], case)
+        else:
+            if model_differs:
+                ctx.broken("correspondence", "witnesses", "model and implementation differ on the boundary witness %s" % c["id"], case)
+    for fid, whats in reproduced.items():
+        ctx.known(fid, "; also: ".join(whats))
+
+
 def run(ctx):
     ctx.coq("CrossWindow", "C12.v")
-    binpath = ctx.harness("c12")
-    corpus = [c for c in load_corpus() if c.get("kind", "history") == "history"]
+    binpath = harness(ctx)
+    allc = load_corpus()
+    corpus = [c for c in allc if c.get("kind", "history") == "history"]
     if corpus:
         evaluate(ctx, binpath, [c["case"] for c in corpus], "corpus")
+    replay_witnesses(ctx, binpath, allc)
     n = 1500 if ctx.thorough else 150
     hist = [gen_history(ctx.rng, ctx.thorough) for _ in range(n)]
     ctx.sample({"rules": hist[0]["rules"], "first_steps": hist[0]["steps"][:2]})
     evaluate(ctx, binpath, hist, "histories")
+    ex = gen_exhaustive(ctx.thorough)
+    evaluate(ctx, binpath, ex, "exhaustive_boundaries")
+    ctx.coverage["exhaustive"] = True
+    ctx.coverage["exhaustive_scope"] = ("%d histories: chain scenario over two windows (widths 2, 3), arrival times 0-2 (thorough: 0-3), optional renewal at 2-3 (thorough: 2-4), "
+                                        "every increasing triple of evaluation times from 1..%d, lingering or prompt eviction; 3 steps each" % (len(ex), 7 if ctx.thorough else 5))
     fl = [gen_function_level(ctx.rng) for _ in range(n)]
     evaluate(ctx, binpath, fl, "function_level_arbitrary_state", oracle=False)
+    pt = [gen_perturbed(ctx.rng) for _ in range(n)]
+    evaluate(ctx, binpath, pt, "perturbed_outside_quantifier", oracle=False)
     ctx.finish(level="proof", rule=PROP_RULE, trusted_base=TRUSTED, assumptions=ASSUME)
 
 
 def replay(ctx):
-    binpath = ctx.harness("c12")
-    evaluate(ctx, binpath, [ctx.replay["case"]], "replay")
+    """Replays a violation file (kind=violation: the failing history) or the first disagreeing case of an
+    obligation file (kind=obligation-broken...)."""
+    ctx.coq("CrossWindow", "C12.v")
+    binpath = harness(ctx)
+    r = ctx.replay
+    case = r.get("case")
+    if case is None:
+        for b in r.get("broken", []):
+            cs = b.get("case")
+            if isinstance(cs, dict):
+                case = cs.get("case", cs) if "steps" not in cs else cs
+                if isinstance(case, dict) and "steps" in case:
+                    break
+                case = None
+    if case is None or "steps" not in case:
+        ctx.broken("replay", "replay", "the replay file names a broken obligation without a failing input: %s"
+                   % json.dumps([b.get("name") for b in r.get("broken", [])]))
+    else:
+        evaluate(ctx, binpath, [case], "replay", oracle="init_state" not in case)
     ctx.finish(level="proof", rule=PROP_RULE, trusted_base=TRUSTED, assumptions=ASSUME)
